@@ -278,4 +278,15 @@ def keysOf (ls : List Layer) : List IKey := (ls.flatMap id).map (·.1)
 def IdxStore.allKeys (s : IdxStore) : List IKey :=
   keysOf s.files ++ (match s.builder with | some b => b.map (·.1) | none => [])
 
+/-! the files have names: `commit_write_group` writes `<sha1 of the shas fed to
+_add_git_sha in this write group>.rix` with `put_file`, which replaces a file of
+the same name -/
+
+abbrev NamedFiles := List (B × Layer)
+
+def commitNamed (files : NamedFiles) (name : B) (b : Layer) : NamedFiles :=
+  (name, b) :: files.filter (fun f => f.1 != name)
+
+def namedGet (files : NamedFiles) (k : IKey) : Option B := filesGet (files.map (·.2)) k
+
 end BreezyVerif.C38
